@@ -37,8 +37,12 @@ CLAIM = {
             "against the real code on generated shapes. See the evidence for theorems that are proved only in part.",
     "design_ref": "DESIGN.md 3/C04",
     "note": "Trusted: Coq kernel + vm_compute, tools/go2coq, conversions as byte functions. Map lenses are modelled on association "
-            "lists and are not composable with the byte optics in the model. Partial: see `level_note` details in "
-            "coq/theories/Properties/C04.v (theorems named *_partial).",
+            "lists and are not composable with the byte optics in the model. PARTIAL against DESIGN 3/C04: (1) join_frame is proved "
+            "only for the OUTER focus (C04_join_frame_partial: nothing outside the outer focus changes); that inside it only the "
+            "inner focus changes is checked by the oracle, not proved; (2) the N-fold consequence of shapeN.Put/Get for pairwise "
+            "disjoint foci is not stated as a theorem (proved: per arity, Put = the component puts last-first, Get = the component "
+            "gets); (3) morphism_roundtrip is proved for one iso with any nil entries (C04_morphism_roundtrip_partial) plus "
+            "C04_iso_roundtrip / C04_iso_transport and the necessity witness, not for lists of several different isos.",
     "technique": "Coq proof by induction on optic syntax / iso lists + translator-regenerated per-arity definitions + differential "
                  "run of model and oracle on generated Go struct shapes",
 }
